@@ -4,6 +4,12 @@ import json, os, subprocess
 ROOT = os.path.dirname(os.path.abspath(__file__))
 ALL = ["C%02d" % i for i in range(1, 21)]
 CHECKS = {
+ "C07": dict(engine="tlc+vh-replay", technique="TLA+ spec Limits.tla (request gate as a function of size and request limit only) enumerated by TLC; every case replayed on four entry points incl. Server::start over loopback TCP",
+             text="Limits.tla states Outcome = (size <= max_request_body_size) with the response limit absent from the right-hand side and TLC checks the effective per-entry-point limit against it (as-is config documents F6); all grid cases (unequal limit pairs, boundary sizes, framings) are replayed on Server::start, TowerService, ws::connect and http::call_with_service_builder with bodies padded to the exact byte size; handler log, rejection form and WebSocket liveness are compared.",
+             note="grid {64,100,1000}^2 and 7 boundary sizes; HTTP rejection may be 413 or 500", ref="5 (C07)"),
+ "C08": dict(engine="tlc+vh-replay", technique="TLA+ state machines of the bounded response writer and the batch response builder (Limits.tla) model-checked by TLC; lengths replayed exactly into the real server and measured on the wire",
+             text="The single-response writer and the batch builder are modelled on integers (one Append action per entry, boundary-relative lengths at every position); TLC checks no-oversize-on-wire and fits-iff-sent-unchanged; the harness builds payloads whose serialised responses have exactly the enumerated lengths, sends them over HTTP and WS and checks every frame's byte length, outcome class, id and content.",
+             note="limits {100,200,1024}; fixed library errors are not size-bounded by design and lie outside the alphabet", ref="5 (C08)"),
  "C19": dict(engine="tlc+vh-replay", technique="TLA+ spec HttpGate.tla: gate table + body-reader state machine (one action per body frame) model-checked by TLC; every framing replayed through the tower service with explicit frames, differential against the one-chunk exchange",
              text="HttpGate.tla states the method/content-type gate and models the body reader frame by frame with the invariant that the sniffing verdict is a function of the concatenation; TLC enumerates every gate pair and every framing (cut subsets, blank/empty frame insertions, Content-Length on/off) of six bodies; each is replayed into the real tower service and compared with the one-chunk exchange of the same bytes and with the spec's answer class; the as-is config documents F14.",
              note="cut offsets and blank bytes are seeded; JSON content types with foreign parameters may go either way", ref="5 (C19)"),
